@@ -76,9 +76,7 @@ CodeStep(t, c) ==
   IN
   CASE c = "sp" -> {Code(t.sol, nest)}
     [] c = "nl" -> {Code(TRUE, nest)}
-    [] c = "hash" -> IF t.sol /\ mac # "objx"
-                       THEN {St("hash", TRUE, nest, "-", "-", 0, 0, FALSE, "-")}
-                       ELSE tok
+    [] c = "hash" -> IF t.sol THEN {St("hash", TRUE, nest, "-", "-", 0, 0, FALSE, "-")} ELSE tok
     [] c = "sl" -> {St("slash", t.sol, nest, "-", "code", 0, 0, FALSE, "-")}
     [] c = "bs" -> {St("backslash", t.sol, nest, "-", "-", 0, 0, FALSE, "-")}
     [] c = "dq" -> {St("str", FALSE, nest, "-", "-", 0, 0, FALSE, "d")}
